@@ -63,6 +63,15 @@ def run(prog, rep, tier='quick'):
                     n_dim += 1
                     if blocked(rep, 'dim', f.qname, ctx, itp):
                         continue
+                    dbv = [e for e in itp.events if e[0] == 'dtype-by-value' and e[3] == f.qname]
+                    if dbv:
+                        key = ('dbv', normalise(dbv[0][1]))
+                        if key not in seen:
+                            seen.add(key)
+                            rep.violation('fft', f.qname, normalise(dbv[0][1]), '%s makes the dtype of the data depend on its values: '
+                                          'complex-typed samples with (near-)zero imaginary parts are transformed with rfft and come back '
+                                          'with NFFT//2+1 bins instead of NFFT (first seen in %s)' % (dbv[0][2], ctx), loc(f.mod, dbv[0][1]))
+                        continue
                     report_conflicts(rep, 'dim', itp, ('s', 'win', 'hz', 'nfft'), ctx, seen)
                     check_sink(rep, 'dim', f.qname, ctx, 'periodogram', v, {'s': F(2), 'win': F(2), 'hz': F(0), 'nfft': F(0)}, where, itp, ('s',), seen)
                     if isinstance(v, Num):
